@@ -552,6 +552,23 @@ func (e *env) sparse(ti *tinfo, name string, in []reflect.Type, bops []operand) 
 			}
 			if _, ok := e.call(ti, z, name, desc, args...); ok {
 				e.cmp(ti, name, a.cls, z, f.Mul(a.v, sp), desc)
+				// the blocks of the sparse element are operands: unchanged by the call (a line is reused for several
+				// accumulators), and a second product by the same objects gives the same value
+				same := true
+				for k := range vals {
+					var cur ofield.El
+					if arr {
+						cur = e.rd(args[0].Elem().Index(k).Addr())
+					} else {
+						cur = e.rd(args[k])
+					}
+					same = same && sf.Eq(cur, vals[k])
+				}
+				c.Check(ti.Name+"."+name, e.key(ti, name, "operand-modified"), same, desc)
+				z2 := e.mk(ti, a.v)
+				if _, ok2 := e.call(ti, z2, name, desc, args...); ok2 && same {
+					e.cmp(ti, name, a.cls+"/second-product-same-objects", z2, f.Mul(a.v, sp), desc)
+				}
 			}
 		}
 		c.Class(e.N + "/" + ti.Name + "." + name + "/" + a.cls)
